@@ -35,7 +35,7 @@ from vlib import Ctx, run_tlc, build_harness, run_bin, parse_jsonl, SPEC
 D = os.path.join(SPEC, "server")
 HIST = ["ForbiddenTrustsXff", "XffUntrimmed", "MappedPeerUnmatched"]
 MUTANTS = ["CacheBeforeBlacklist", "ProxyUnchecked", "RedirectUnchecked", "OnlyProxiesChecked", "NoConnCondition",
-           "IgnoresXff", "BlockSkipsHandlerCheck"]
+           "IgnoresXff", "BlockSkipsHandlerCheck", "MappedListEntryUnmatched"]
 WITNESSES = ["NoCachedAnswer", "NoDrop", "NoForwarded403", "NoLenientCase"]
 ACTIONS = ["Cli_Connect", "Srv_VerifyConnection", "Cli_SeesDrop", "Cli_Request", "Srv_Parse", "Srv_Route",
            "Srv_File_Blacklist", "Srv_Dir_Blacklist", "Srv_Redirect_Blacklist", "Srv_Proxy_Blacklist",
@@ -119,7 +119,8 @@ def replay_vectors(ctx, blbin, server, lines, work, threads, label):
 def vector_case(m):
     """Replay file content: the single row as a vector line the harness can be fed again."""
     return {"kind": "c19-vector",
-            "line": {"mode": m["mode"], "list": m["list"], "cache": m["cache"], "peer": m["peer"],
+            "line": {"mode": m["mode"], "list": m["list"], "cache": m["cache"], "dual": bool(m.get("dual")), "lm": bool(m.get("lm")),
+                     "peer": m["peer"],
                      "rows": [{"p": m["p"], "es": m["es"], "exp": m["exp"],
                                "m": {rt: m.get("model", "") for rt in ("file", "directory", "proxy", "redirect")},
                                "dev": {d: {rt: v for rt in ("file", "directory", "proxy", "redirect")} for d, v in m.get("dev", {}).items()}}]},
@@ -129,22 +130,29 @@ def vector_case(m):
 
 
 def describe(m):
-    return ("listen=%s mode=%s list=%s cache=%s peer=%s X-Forwarded-For=%r route=%s%s: allowed %s, observed %s" % (
-        m.get("listen", "?"), m["mode"], m["list"], m["cache"], m["peer"], m.get("xff_header"), m.get("rt"),
+    return ("listen=%s mode=%s list=%s%s cache=%s peer=%s X-Forwarded-For=%r route=%s%s: allowed %s, observed %s" % (
+        m.get("listen", "?"), m["mode"], m["list"], " (IPv4 entries written ::ffff:a.b.c.d)" if m.get("lm") else "", m["cache"], m["peer"], m.get("xff_header"), m.get("rt"),
         " (cached target)" if m.get("warm") else "", m["exp"], m["got"]))
 
 
 def attribute(ctx, mismatches, total, source):
     """Mismatches that are exactly what one historical deviation predicts go to that deviation; the rest are violations."""
+    # candidates: every deviation whose single-deviation prediction TLC printed for the case; open known findings
+    # first, then greedily the deviation that explains most of what is left (several may predict the same rows)
     by_dev = {}
-    plain = []
-    for m in mismatches:
-        expl = [d for d in HIST if m.get("dev", {}).get(d) == m["got"]]
-        if expl:
-            d = next((x for x in expl if ctx.known.is_open(ctx.prop, x)), expl[0])
-            by_dev.setdefault(d, []).append(m)
-        else:
-            plain.append(m)
+    rest = list(mismatches)
+    expl = lambda m: [d for d, v in m.get("dev", {}).items() if v == m["got"]]
+    while True:
+        count = {}
+        for m in rest:
+            for d in expl(m):
+                count[d] = count.get(d, 0) + 1
+        if not count:
+            break
+        d = min(count, key=lambda x: (not ctx.known.is_open(ctx.prop, x), -count[x], x))
+        by_dev[d] = [m for m in rest if d in expl(m)]
+        rest = [m for m in rest if d not in expl(m)]
+    plain = rest
     for d, ms in sorted(by_dev.items()):
         what = "%s: %d case(s) are what Dev={%s} predicts, e.g. %s" % (source, len(ms), d, describe(ms[0]))
         if ctx.known.is_open(ctx.prop, d):
@@ -168,9 +176,10 @@ def trace_case(rec_entry):
     r = rec_entry["rec"]
     es = [{"a": e["a"], "sp": e["sp"]} for e in r["es"]]
     return {"listen": "::" if r.get("dual") else ("::1" if ":" in r["peer"] else "127.0.0.1"),
+            "dual": bool(r.get("dual")), "lm": bool(r.get("lm")),
             "mode": r["mode"], "list": r["list"], "cache": r["cache"], "peer": r["peer"], "p": r["present"], "es": es,
             "exp": rec_entry.get("allowed", []), "got": r["res"], "rt": r["rt"], "warm": r.get("fromCache"),
-            "xff_header": xff_text({"p": r["present"], "es": es}), "model": "", "dev": {rec_entry["dev"]: r["res"]} if rec_entry.get("dev") else {},
+            "xff_header": xff_text({"p": r["present"], "es": es}), "model": "", "dev": {d: r["res"] for d in (rec_entry.get("dev") or [])},
             "detail": "trace line %s, request %s on its connection, uri %s" % (rec_entry.get("line"), r["n"], r["uri"])}
 
 
@@ -234,7 +243,8 @@ def check(ctx, thorough, blbin, server, work):
     # ---- 1. model checking ----------------------------------------------------------------------
     main_cfg = "MC_Blacklist_thorough.cfg" if thorough else "MC_Blacklist_quick.cfg"
     # quick: the three historical deviations and four of the mutants; thorough: all of them
-    devs = HIST + (MUTANTS if thorough else ["CacheBeforeBlacklist", "ProxyUnchecked", "NoConnCondition", "IgnoresXff"])
+    devs = HIST + (MUTANTS if thorough else ["CacheBeforeBlacklist", "ProxyUnchecked", "NoConnCondition", "IgnoresXff",
+                                               "MappedListEntryUnmatched"])
     wits = WITNESSES if thorough else ["NoCachedAnswer", "NoForwarded403"]
     jobs = {}
     with concurrent.futures.ThreadPoolExecutor(max_workers=4) as ex:
@@ -248,6 +258,9 @@ def check(ctx, thorough, blbin, server, work):
                                          work_id="c19", heap="1g")
         jobs["conc"] = ex.submit(tlc, "MC_Blacklist.tla", "MC_Blacklist_conc.cfg" if thorough else "MC_Blacklist_conc_quick.cfg", D,
                                  workers=3, coverage=True, timeout=1800, work_id="c19", heap="4g")
+        if not thorough:
+            jobs["forms"] = ex.submit(tlc, "MC_Blacklist.tla", "MC_Blacklist_forms.cfg", D, workers=2, coverage=True, timeout=900,
+                                      work_id="c19", heap="2g")
         if thorough:
             jobs["conc_dev"] = ex.submit(tlc, "MC_Blacklist.tla", "MC_Blacklist_conc_dev.cfg", D, workers=1, timeout=900,
                                          work_id="c19", heap="2g")
@@ -259,6 +272,11 @@ def check(ctx, thorough, blbin, server, work):
     ctx.add_tlc("decision-point model, Dev={}, one connection (%s)" % main_cfg, r)
     ctx.require_tlc_ok("MC_Blacklist", r)
     require_taken("MC_Blacklist", r, ACTIONS)
+    if not thorough:
+        r = res["forms"]
+        ctx.add_tlc("decision-point model, Dev={}, single- and dual-stack listener x plain and IPv4-mapped list entries (MC_Blacklist_forms.cfg)", r)
+        ctx.require_tlc_ok("MC_Blacklist_forms", r)
+        require_taken("MC_Blacklist_forms", r, ACTIONS)
     if thorough:
         r = res["main3"]
         ctx.add_tlc("decision-point model, Dev={}, X-Forwarded-For lists of up to 3 entries (MC_Blacklist_thorough3.cfg)", r)
@@ -288,29 +306,32 @@ def check(ctx, thorough, blbin, server, work):
             raise vlib.ToolError("vacuity: TLC found no behaviour violating Wit_%s" % w)
 
     # ---- 2. vectors from TLC replayed on the real server ----------------------------------------
-    gcfg = "Gen_Blacklist_thorough.cfg" if thorough else "Gen_Blacklist_quick.cfg"
-    g = tlc("MC_Blacklist.tla", gcfg, D, workers=1, timeout=1800, work_id="c19", heap="8g")
-    if g.violation:
-        raise vlib.ToolError("generation failed (%s %s): %s" % (g.violation, g.violated_name, g.out[-1500:]))
-    ctx.add_tlc("vector generation %s (GenSound: Model({}) within Decide for every row, route, cached-ness)" % gcfg, g)
-    lines = [x for x in g.prints if isinstance(x, dict) and "rows" in x]
-    if not lines:
-        raise vlib.ToolError("TLC generated no vectors")
-    s, mm = replay_vectors(ctx, blbin, server, lines, work, 8, gcfg)
-    nrows = sum(len(x["rows"]) for x in lines)
-    if s["rows"] + s["skipped_rows_no_ipv6"] != nrows:
-        raise vlib.ToolError("harness evaluated %d of %d rows" % (s["rows"], nrows))
-    if s["upstream_hits"] != s["upstream_expected"]:
-        ctx.assumptions.append("note: the scripted upstream was contacted %d times for %d proxied answers" % (s["upstream_hits"], s["upstream_expected"]))
-    ctx.cov["evaluations"] += s["requests"]
-    ctx.cov["distinct_nontrivial"] += s["nontrivial"]
-    ctx.cov["traces_validated_against_impl"] += s["requests"]
-    for x in s["samples"][:6]:
-        ctx.sample(x)
-    ctx.add_part("vectors " + gcfg, **{k: v for k, v in s.items() if k not in ("samples", "summary", "errors")})
-    if s["warm_requests"] and s["cache_hits_observed"] == 0:
-        ctx.assumptions.append("environment gap: no answer was observed to come from the file cache; the cached path was not exercised")
-    attribute(ctx, mm, s["mismatches"], "vectors")
+    # quick: lists of up to 2 entries x {single, dual-stack listener} x {plain, IPv4-mapped list entries};
+    # thorough: that, and lists of up to 3 entries x {single, dual-stack listener}
+    lines = []
+    for gcfg in (["Gen_Blacklist_quick.cfg", "Gen_Blacklist_thorough.cfg"] if thorough else ["Gen_Blacklist_quick.cfg"]):
+        g = tlc("MC_Blacklist.tla", gcfg, D, workers=1, timeout=1800, work_id="c19", heap="8g")
+        if g.violation:
+            raise vlib.ToolError("generation failed (%s %s): %s" % (g.violation, g.violated_name, g.out[-1500:]))
+        ctx.add_tlc("vector generation %s (GenSound: Model({}) within Decide for every row, route, cached-ness)" % gcfg, g)
+        lines = [x for x in g.prints if isinstance(x, dict) and "rows" in x]
+        if not lines:
+            raise vlib.ToolError("TLC generated no vectors")
+        s, mm = replay_vectors(ctx, blbin, server, lines, work, 8, gcfg)
+        nrows = sum(len(x["rows"]) for x in lines)
+        if s["rows"] + s["rows_dual_stack"] + s["skipped_rows_no_ipv6"] + s["skipped_rows_no_dual_stack"] != nrows:
+            raise vlib.ToolError("harness evaluated %d of %d rows" % (s["rows"], nrows))
+        if s["upstream_hits"] != s["upstream_expected"]:
+            ctx.assumptions.append("note: the scripted upstream was contacted %d times for %d proxied answers" % (s["upstream_hits"], s["upstream_expected"]))
+        ctx.cov["evaluations"] += s["requests"]
+        ctx.cov["distinct_nontrivial"] += s["nontrivial"]
+        ctx.cov["traces_validated_against_impl"] += s["requests"]
+        for x in s["samples"][:6]:
+            ctx.sample(x)
+        ctx.add_part("vectors " + gcfg, **{k: v for k, v in s.items() if k not in ("samples", "summary", "errors")})
+        if s["warm_requests"] and s["cache_hits_observed"] == 0:
+            ctx.assumptions.append("environment gap: no answer was observed to come from the file cache; the cached path was not exercised")
+        attribute(ctx, mm, s["mismatches"], "vectors")
 
     # ---- 3. random sessions validated by TLC -----------------------------------------------------
     sessions, conns = (120, 150) if thorough else (24, 80)
